@@ -67,6 +67,11 @@ struct SetAdapter {
   struct CanExtractPos<X, true> { static const bool value = IsAmcVector<typename SetTraits<X>::Vec>::value; };
   static const bool kCanExtractPos = CanExtractPos<S, TR::flat>::value;
 
+  // the element an iterator designates, reached through its operator-> (not operator*)
+  static const T &arrow(const T *p) { return *p; }
+  template <class It>
+  static const T &arrow(const It &it) { return *it.operator->(); }
+
   static S &ref(void *p) { return *static_cast<S *>(p); }
   static const S &cref(const void *p) { return *static_cast<const S *>(p); }
 
@@ -103,17 +108,17 @@ struct SetAdapter {
     for (auto it = s.begin(); !(it == s.end()); ++it) {
       if (++guard > n + 1) { err = "forward walk does not reach end() after size()+1 steps"; return false; }
       const T &e = *it;
-      int st = T::state_of(e);
+      int st = ElemIO<T>::state(e);
       if (st != ES_ALIVE) { err = std::string("visible element is ") + estate_name(st); return false; }
-      fwd.push_back(val_of(e));
+      fwd.push_back(ElemIO<T>::val(e));
     }
     guard = 0;
     for (auto it = s.rbegin(); !(it == s.rend()); ++it) {
       if (++guard > n + 1) { err = "reverse walk does not reach rend() after size()+1 steps"; return false; }
       const T &e = *it;
-      int st = T::state_of(e);
+      int st = ElemIO<T>::state(e);
       if (st != ES_ALIVE) { err = std::string("visible element (reverse walk) is ") + estate_name(st); return false; }
-      rev.push_back(val_of(e));
+      rev.push_back(ElemIO<T>::val(e));
     }
     return true;
   }
@@ -128,7 +133,7 @@ struct SetAdapter {
     if (res.itEnd) return;
     size_t guard = 0, n = (size_t)s.size();
     for (auto w = s.begin(); !(w == s.end()); ++w) {
-      if (w == it) { res.itVal = val_of(*w); return; }
+      if (w == it) { res.itVal = ElemIO<T>::val(*w); return; }
       if (++guard > n + 1) break;
     }
     res.itValid = false;
@@ -137,7 +142,7 @@ struct SetAdapter {
   static bool designates(const S &s, const It &it, Val &out) {
     size_t guard = 0, n = (size_t)s.size();
     for (auto w = s.begin(); !(w == s.end()); ++w) {
-      if (w == it) { out = val_of(*w); return true; }
+      if (w == it) { out = ElemIO<T>::val(*w); return true; }
       if (++guard > n + 1) break;
     }
     return false;
@@ -159,7 +164,7 @@ struct SetAdapter {
   static void with_range(const SetIOp &op, SetResult &res, F &&f) {
     std::vector<T> src;
     src.reserve(op.vals.size());
-    for (const Val &x : op.vals) src.emplace_back(x.key, x.pay);
+    for (const Val &x : op.vals) src.push_back(ElemIO<T>::make(x));
     switch (op.stream) {
       default:
       case SRC_PTR: { const T *b = src.data(); f(b, b + src.size()); } break;
@@ -182,9 +187,9 @@ struct SetAdapter {
     const std::vector<Val> &x = op.vals;
     switch (x.size()) {
       case 0: { std::initializer_list<T> il{}; f(il); } break;
-      case 1: { T a(x[0].key, x[0].pay); std::initializer_list<T> il{a}; f(il); } break;
-      case 2: { T a(x[0].key, x[0].pay), b(x[1].key, x[1].pay); std::initializer_list<T> il{a, b}; f(il); } break;
-      default: { T a(x[0].key, x[0].pay), b(x[1].key, x[1].pay), c(x[2].key, x[2].pay); std::initializer_list<T> il{a, b, c}; f(il); } break;
+      case 1: { T a = ElemIO<T>::make(x[0]); std::initializer_list<T> il{a}; f(il); } break;
+      case 2: { T a = ElemIO<T>::make(x[0]), b = ElemIO<T>::make(x[1]); std::initializer_list<T> il{a, b}; f(il); } break;
+      default: { T a = ElemIO<T>::make(x[0]), b = ElemIO<T>::make(x[1]), c = ElemIO<T>::make(x[2]); std::initializer_list<T> il{a, b, c}; f(il); } break;
     }
   }
 
@@ -230,17 +235,17 @@ struct SetAdapter {
     const S &cs = s;
     switch (op.kind) {
       case S_INSERT_COPY: {
-        T t(x[0].key, x[0].pay);
+        T t = ElemIO<T>::make(x[0]);
         G.armed = true; SIM_CMP_BEGIN; auto r = s.insert(t); SIM_CMP_END(6); G.armed = false;
         res.flag = r.second; check_it(s, r.first, res);
       } break;
       case S_INSERT_MOVE: {
-        T t(x[0].key, x[0].pay);
+        T t = ElemIO<T>::make(x[0]);
         G.armed = true; SIM_CMP_BEGIN; auto r = s.insert(std::move(t)); SIM_CMP_END(6); G.armed = false;
         res.flag = r.second; check_it(s, r.first, res);
       } break;
       case S_INSERT_HINT: {
-        T t(x[0].key, x[0].pay);
+        T t = ElemIO<T>::make(x[0]);
         auto h = iter_at(s, op.pos);
         G.armed = true; SIM_CMP_BEGIN;
         auto it = (op.variant & 1) ? s.insert(h, std::move(t)) : s.insert(h, t);
@@ -248,12 +253,12 @@ struct SetAdapter {
         check_it(s, it, res);
       } break;
       case S_EMPLACE: {
-        G.armed = true; SIM_CMP_BEGIN; auto r = s.emplace(x[0].key, x[0].pay); SIM_CMP_END(7); G.armed = false;
+        G.armed = true; SIM_CMP_BEGIN; auto r = ElemIO<T>::set_emplace(s, x[0]); SIM_CMP_END(7); G.armed = false;
         res.flag = r.second; check_it(s, r.first, res);
       } break;
       case S_EMPLACE_HINT: {
         auto h = iter_at(s, op.pos);
-        G.armed = true; SIM_CMP_BEGIN; auto it = s.emplace_hint(h, x[0].key, x[0].pay); SIM_CMP_END(9); G.armed = false;
+        G.armed = true; SIM_CMP_BEGIN; auto it = ElemIO<T>::set_emplace_hint(s, h, x[0]); SIM_CMP_END(9); G.armed = false;
         check_it(s, it, res);
       } break;
       case S_INSERT_RANGE: case S_BULK:
@@ -263,7 +268,7 @@ struct SetAdapter {
         with_il(op, [&](std::initializer_list<T> il) { Arm a; s.insert(il); });
         break;
       case S_ERASE_KEY: {
-        T t(op.key.key, op.key.pay);
+        T t = ElemIO<T>::make(op.key);
         G.armed = true; SIM_CMP_BEGIN; res.count = (long)s.erase(t); SIM_CMP_END(8); G.armed = false;
       } break;
       case S_ERASE_POS: {
@@ -298,14 +303,14 @@ struct SetAdapter {
 #ifdef AMC_CXX20
         int m = op.mod;
         Arm a;
-        res.count = (long)erase_if(s, [m](const T &e) { return e.k() % m == 0; });
+        res.count = (long)erase_if(s, [m](const T &e) { return ElemIO<T>::val(e).key % m == 0; });
 #else
         res.outcome = OUT_NOOP;
 #endif
       } break;
       case S_CLEAR: { Arm a; s.clear(); } break;
       case S_FIND: {
-        T t(op.key.key, op.key.pay);
+        T t = ElemIO<T>::make(op.key);
         G.armed = true;
         { SIM_CMP_BEGIN; auto it = cs.find(t); SIM_CMP_END(0); G.armed = false; check_it(s, it, res); G.armed = true; }
         { SIM_CMP_BEGIN; res.flag2 = cs.contains(t); SIM_CMP_END(1); }
@@ -315,7 +320,7 @@ struct SetAdapter {
       } break;
       case S_BOUNDS: {
         if constexpr (kFlat) {
-          T t(op.key.key, op.key.pay);
+          T t = ElemIO<T>::make(op.key);
           Arm a;
           { SIM_CMP_BEGIN; auto it = cs.lower_bound(t); SIM_CMP_END(3); res.idx[0] = it - cs.begin(); }
           { SIM_CMP_BEGIN; auto it = cs.upper_bound(t); SIM_CMP_END(4); res.idx[1] = it - cs.begin(); }
@@ -347,28 +352,28 @@ struct SetAdapter {
       case S_MERGE: { Arm a; s.merge(*w); } break;
       case S_EXTRACT_INSERT: {
         typedef typename S::node_type Node;
-        T t(op.key.key, op.key.pay);
+        T t = ElemIO<T>::make(op.key);
         S &tgt = op.toSelf ? s : *w;
         G.armed = true;
         Node nh = s.extract(t);
         G.armed = false;
         res.nodeEmptyAfterExtract = nh.empty();
         if (!nh.empty()) {
-          res.nodeVal = val_of(nh.value());
+          res.nodeVal = ElemIO<T>::val(nh.value());
           if (op.variant & 4) {
             auto h = iter_at(tgt, op.pos % ((size_t)tgt.size() + 1));
             G.armed = true; SIM_CMP_BEGIN; auto it = tgt.insert(h, std::move(nh)); SIM_CMP_END(10); G.armed = false;
             // check the iterator against the target set
             res.hasIt = true; res.itEnd = (it == tgt.end()); res.itValid = res.itEnd || designates(tgt, it, res.itVal);
             res.nodeEmptyAfterInsert = nh.empty();
-            if (!nh.empty()) res.reads.push_back(val_of(nh.value()));
+            if (!nh.empty()) res.reads.push_back(ElemIO<T>::val(nh.value()));
             res.bits = 1;  // hinted form: no 'inserted' flag
           } else {
             G.armed = true; auto r = tgt.insert(std::move(nh)); G.armed = false;
             res.nodeInserted = r.inserted;
             res.hasIt = true; res.itEnd = (r.position == tgt.end()); res.itValid = res.itEnd || designates(tgt, r.position, res.itVal);
             res.nodeEmptyAfterInsert = r.node.empty();
-            if (!r.node.empty()) res.reads.push_back(val_of(r.node.value()));
+            if (!r.node.empty()) res.reads.push_back(ElemIO<T>::val(r.node.value()));
           }
         }
       } break;
@@ -380,7 +385,7 @@ struct SetAdapter {
           Node nh = s.extract(it);
           G.armed = false;
           res.nodeEmptyAfterExtract = nh.empty();
-          if (!nh.empty()) res.nodeVal = val_of(nh.value());
+          if (!nh.empty()) res.nodeVal = ElemIO<T>::val(nh.value());
         } else {
           res.outcome = OUT_NOOP;  // extract(const_iterator) does not compile for SmallSet over FlatSet nor FlatSet over std::vector
         }
@@ -432,13 +437,13 @@ struct SetAdapter {
         res.count = (long)cs.size();
         if constexpr (kFlat) {
           if (!cs.empty()) {
-            res.reads.push_back(val_of(cs.front()));
-            res.reads.push_back(val_of(cs.back()));
+            res.reads.push_back(ElemIO<T>::val(cs.front()));
+            res.reads.push_back(ElemIO<T>::val(cs.back()));
 #ifdef AMC_NONSTD_FEATURES
             size_t i = op.pos % (size_t)cs.size();
-            res.reads.push_back(val_of(cs[(typename S::size_type)i]));
-            res.reads.push_back(val_of(cs.at((typename S::size_type)i)));
-            res.reads.push_back(val_of(cs.data()[i]));
+            res.reads.push_back(ElemIO<T>::val(cs[(typename S::size_type)i]));
+            res.reads.push_back(ElemIO<T>::val(cs.at((typename S::size_type)i)));
+            res.reads.push_back(ElemIO<T>::val(cs.data()[i]));
 #endif
           }
         }
@@ -449,18 +454,18 @@ struct SetAdapter {
           size_t n = (size_t)cs.size(), guard = 0;
           res.reads.reserve(3 * n + 4);
           G.armed = true;
-          for (auto it = cs.begin(); !(it == cs.end()) && guard++ <= n; it++) { G.armed = false; res.reads.push_back(Val{it->k(), it->p()}); G.armed = true; }
+          for (auto it = cs.begin(); !(it == cs.end()) && guard++ <= n; it++) { G.armed = false; res.reads.push_back(ElemIO<T>::val(arrow(it))); G.armed = true; }
           guard = 0;
-          for (auto it = cs.end(); !(it == cs.begin()) && guard++ <= n;) { --it; G.armed = false; res.reads.push_back(Val{(*it).k(), (*it).p()}); G.armed = true; }
+          for (auto it = cs.end(); !(it == cs.begin()) && guard++ <= n;) { --it; G.armed = false; res.reads.push_back(ElemIO<T>::val(*it)); G.armed = true; }
           guard = 0;
-          for (auto it = cs.rbegin(); !(it == cs.rend()) && guard++ <= n;) { auto cur = it++; G.armed = false; res.reads.push_back(Val{cur->k(), cur->p()}); G.armed = true; }
+          for (auto it = cs.rbegin(); !(it == cs.rend()) && guard++ <= n;) { auto cur = it++; G.armed = false; res.reads.push_back(ElemIO<T>::val(arrow(cur))); G.armed = true; }
         }
       } break;
       case S_FROM_VECTOR: case S_ASSIGN_VECTOR: case S_STEAL_VECTOR: case S_RESERVE: case S_SHRINK:
         vector_ops(s, self, op, res);
         break;
       case S_GROW_PAST_N:
-        for (size_t i = 0; i < x.size(); ++i) { T t(x[i].key, x[i].pay); Arm a; s.insert(std::move(t)); }
+        for (size_t i = 0; i < x.size(); ++i) { T t = ElemIO<T>::make(x[i]); Arm a; s.insert(std::move(t)); }
         break;
       case S_DRAIN: {
         Arm a;
@@ -485,7 +490,7 @@ struct SetAdapter {
           G.faultKind = F_NONE;
           G.armed = true;
           Vec vec;
-          for (size_t i = 0; i < x.size(); ++i) vec.emplace_back(x[i].key, x[i].pay);
+          for (size_t i = 0; i < x.size(); ++i) vec.push_back(ElemIO<T>::make(x[i]));
           G.armed = false;
           G.faultKind = fk;
           reconstruct(self, op.cmpMode, [&](void *at) {
@@ -497,7 +502,7 @@ struct SetAdapter {
           G.faultKind = F_NONE;
           G.armed = true;
           Vec vec;
-          for (size_t i = 0; i < x.size(); ++i) vec.emplace_back(x[i].key, x[i].pay);
+          for (size_t i = 0; i < x.size(); ++i) vec.push_back(ElemIO<T>::make(x[i]));
           G.faultKind = fk;
           s = std::move(vec);
           G.armed = false;
@@ -507,7 +512,7 @@ struct SetAdapter {
           Vec v = s.steal_vector();
           G.armed = false;
           res.stolen.reserve(v.size());
-          for (const T &e : v) res.stolen.push_back(val_of(e));
+          for (const T &e : v) res.stolen.push_back(ElemIO<T>::val(e));
           res.stolenCapacity = (size_t)v.capacity();
         } break;
         case S_RESERVE: { Arm a; s.reserve((typename S::size_type)op.count); } break;
@@ -527,7 +532,7 @@ struct SetAdapter {
     t->flavour = kFlat ? SF_FLAT : SF_SMALL;
     t->N = TR::N;
     t->objSize = sizeof(S); t->objAlign = alignof(S);
-    t->elemHooks = T::kHooks; t->elemTR = amc::is_trivially_relocatable<T>::value;
+    t->elemHooks = ElemIO<T>::hooks; t->elemTR = amc::is_trivially_relocatable<T>::value;
     t->claimsTR = amc::is_trivially_relocatable<S>::value;
     t->ordered = kFlat;
     t->transparent = IsTransparentCmp<C>::value;
